@@ -205,3 +205,63 @@ Definition c02_spec (c : rcase) : bool :=
        && forallb (fun b => negb (unchanged_b (rc_differ c) LA b)
                             || existsb (fun f => bytes_eqb (final_path f) (st_path b) && final_kept f) (rc_final c)) LB
      end.
+
+(* ---- kind 0204 (C02 resync_after_transfer_noop): two synchronisations of the same source.
+        input (differ order A B), impl (walked1 failed1 walked2 reqs2 notifs2 failed2).
+        Model: the first transfer fails or not as receive_abs says; the second one — the real
+        differ and writer over the destination AS THE REAL WALKER LISTED IT the second time —
+        requests and notifies what receive_abs computes from that listing (contents of the
+        destination do not enter requests, notifications or failure).
+        Specification, on the implementation's output: when the hypotheses of the theorem hold
+        (listings well-formed, links_ok, links_meta, identity_faithful) and the first transfer did
+        not fail, the second requests nothing, notifies nothing and does not fail. ---- *)
+Record rscase := {
+  rs_differ : differ; rs_A : list entry; rs_B : list entry;
+  rs_err1 : bool; rs_W2 : list stat; rs_reqs2 : list bytes; rs_notifs2 : list notif; rs_err2 : bool }.
+
+Definition dec_rscase (input impl : sx) : option rscase :=
+  match input, impl with
+  | SL [SN dc; SN _; a; b], SL [w1; e1; w2; SL rq; SL nt; e2] =>
+    A0 <- sx_list dec_entry a ;;
+    B <- sx_list dec_entry b ;;
+    W1 <- sx_list dec_stat w1 ;;
+    W2 <- sx_list dec_stat w2 ;;
+    rqs <- omap sx_B rq ;;
+    nts <- omap dec_notif nt ;;
+    x1 <- sx_bool e1 ;;
+    x2 <- sx_bool e2 ;;
+    Some {| rs_differ := differ_of dc; rs_A := map (fun s => (s, src_of A0 (st_path s))) W1; rs_B := B;
+            rs_err1 := x1; rs_W2 := W2; rs_reqs2 := rqs; rs_notifs2 := nts; rs_err2 := x2 |}
+  | _, _ => None
+  end.
+
+Definition rs_model (c : rscase) : sx :=
+  let r1 := receive_abs Hid hdr Fresh (rs_differ c) (rs_A c) (rs_B c) in
+  if ds_err r1 then SL [SN 1]
+  else
+    let r2 := receive_abs Hid hdr Fresh DMetadata (map (fun s => (s, [])) (rs_W2 c)) (rs_B c) in
+    if ds_err r2 then SL [SN 0; SN 1]
+    else SL [SN 0; SN 0; SL (map SB (ds_reqs r2)); SL (map enc_notif (sort_by notif_path (ds_notifs r2)))].
+
+Definition rs_impl (c : rscase) : sx :=
+  if rs_err1 c then SL [SN 1]
+  else if rs_err2 c then SL [SN 0; SN 1]
+  else SL [SN 0; SN 0; SL (map SB (rs_reqs2 c)); SL (map enc_notif (sort_by notif_path (rs_notifs2 c)))].
+
+(* the permission bits of a symbolic link cannot be set on Linux (always 0777 on disk, see
+   canon_fields): a source listing that announces other bits — no Linux walker does — differs
+   from the destination for ever; outside the model, outside the oracle *)
+Definition symlink_modes_ok (B : list entry) : bool :=
+  forallb (fun e => negb (mode_is_symlink (st_mode (fst e)))
+                    || N.eqb (N.land (st_mode (fst e)) ModePerm) ModePerm) B.
+
+Definition rs_hyps (c : rscase) : bool :=
+  listing_ok_b (map fst (rs_A c)) && listing_ok_b (map fst (rs_B c)) && links_ok_b (rs_B c)
+  && links_meta_b (rs_B c) && identity_faithful_b (rs_differ c) (rs_A c) (rs_B c)
+  && symlink_modes_ok (rs_B c).
+
+Definition c02_resync_spec (c : rscase) : bool :=
+  rs_err1 c || negb (rs_hyps c)
+  || (negb (rs_err2 c)
+      && match rs_reqs2 c with [] => true | _ => false end
+      && match rs_notifs2 c with [] => true | _ => false end).
